@@ -40,6 +40,9 @@ impl Cmd {
         let mut c = Command::new(bin(b));
         c.args(&self.args).env_clear().stdout(Stdio::piped()).stderr(Stdio::piped()).stdin(if self.stdin.is_some() { Stdio::piped() } else { Stdio::null() });
         for (k, v) in &self.env { c.env(k, v); }
+        // the child must never outlive the harness (a watchdog exit or a killed harness would otherwise leave endless
+        // vanity searches behind): ask the kernel to SIGKILL it when its parent dies
+        unsafe { use std::os::unix::process::CommandExt; c.pre_exec(|| { extern "C" { fn prctl(option: i32, arg2: u64, arg3: u64, arg4: u64, arg5: u64) -> i32; } prctl(1 /* PR_SET_PDEATHSIG */, 9 /* SIGKILL */, 0, 0, 0); Ok(()) }); }
         let mut child = c.spawn().expect("spawn hdwallet");
         let mut si = child.stdin.take(); let data = self.stdin.clone();
         let w = std::thread::spawn(move || { if let (Some(mut si), Some(d)) = (si.take(), data) { let _ = si.write_all(&d); } });
